@@ -51,7 +51,7 @@ SPEC_BUILTINS = {
     "suffixof", "contains", "strlen", "int_str", "str_to_int", "truthy", "py_eq", "py_str",
     "clsid", "clsof", "isinst", "uf", "exact_class", "qn_str", "qn_uri", "map_dom_eq",
     "const_set", "const_map_keys", "table_get", "table_has", "field_array", "is_other",
-    "seq_len", "seq_nth", "seq_empty", "seq_unit", "seq_concat", "flt_of_int", "same", "hash_str",
+    "seq_len", "seq_nth", "seq_empty", "seq_unit", "seq_concat", "flt_of_int", "same", "hash_str", "tbl",
 }
 
 
@@ -594,6 +594,9 @@ class Exec(Sem):
             if sc is not None and sc.dict_of is not None:
                 return self.map_has(self.dict_self(cont, st), x)
         if k == "opt":
+            if st is not None and st.spec:
+                inner = cont.ty.args[0]
+                return self.contains(SV(S.the(inner, cont.t), inner), x, st, node)
             raise Unsupported("`in` on optional container", node)
         raise Unsupported("`in` on %r" % (cont.ty,), node)
 
@@ -754,18 +757,27 @@ class Exec(Sem):
         if name == "old":
             if st.old is None:
                 raise Unsupported("old() outside a postcondition", e)
-            env = dict(st.old.env)
-            # bound variables and result stay visible
-            for n, v in st.env.items():
-                if n not in env:
-                    env[n] = v
-            so = st.old.copy(env=env, spec=True, old=st.old, fn=st.fn)
+            # old(e): e evaluated over the pre-state *heap*; names denote the values they denote now
+            so = st.old.copy(env=dict(st.env), spec=True, old=st.old, fn=st.fn)
             so.bound = st.bound
             v = self.spec_eval(e.args[0], so)
             return k(st, v)
         lam = e.args[0]
         if not isinstance(lam, ast.Lambda):
             raise Unsupported("forall/exists need a lambda", e)
+        hint = [kw.value for kw in e.keywords if kw.arg == "hint"]
+        if name == "exists" and hint and "$locals" in st.env:
+            # goal position at the exit of the verified function: a witness taken from the function's
+            # own locals proves the existential (sound: phi[w] implies exists x. phi)
+            loc = st.env["$locals"]
+            hn = [h.value for h in (hint[0].elts if isinstance(hint[0], ast.Tuple) else [hint[0]])]
+            if all(h in loc and isinstance(loc[h], SV) for h in hn):
+                from .spec import parse_type as _pt
+                tys_ = [_pt(t.value) for t in e.args[1:]]
+                env2 = dict(st.env)
+                for a_, h, t_ in zip(lam.args.args, hn, tys_):
+                    env2[a_.arg] = self.coerce(loc[h], t_, "witness")
+                return k(st, SV(self.spec_bool(lam.body, st.copy(env=env2)), T.BOOL))
         from .spec import parse_type
         names = [a.arg for a in lam.args.args]
         tys = [parse_type(ast.unparse(t)) if not isinstance(t, ast.Constant) else parse_type(t.value)
@@ -1021,6 +1033,8 @@ class Exec(Sem):
             return k(st.bind(target.id, v))
         if isinstance(target, (ast.Tuple, ast.List)):
             items = self.bi.unpack(v, len(target.elts), st, target)
+            if items is None:
+                return ctl.exc(st, ExcVal("ValueError", node=target))
             def go(i, s):
                 if i == len(items):
                     return k(s)
